@@ -537,7 +537,7 @@ pub fn render<F: Function + RenderHints>(
                     if out[index].depth >= image[o].depth {
                         // Clamp voxels to the image depth
                         let d = render_config.image_size.depth() - 1;
-                        if out[index].depth >= d {
+                        if out[index].depth >= d.max(1) {
                             image[o] = GeometryPixel {
                                 depth: d + 1,
                                 normal: [0.0, 0.0, 1.0],
